@@ -69,3 +69,13 @@ func (i *syntaxChildMultiIdentifier) retrieveMap(
 
 	return deepestError
 }
+
+func (i *syntaxChildMultiIdentifier) setAccessorMode(mode bool) {
+	i.syntaxBasicNode.setAccessorMode(mode)
+	for _, identifier := range i.identifiers {
+		identifier.setAccessorMode(mode)
+	}
+	if i.isAllWildcard {
+		i.unionQualifier.setAccessorMode(mode)
+	}
+}
